@@ -11,9 +11,11 @@ import (
 	"net/http"
 	"net/http/httptest"
 	"net/url"
+	"os"
 	"regexp"
 	"runtime"
 	"runtime/debug"
+	"strconv"
 	"strings"
 	"sync"
 	"time"
@@ -136,7 +138,7 @@ type c09UI struct {
 }
 
 func newC09UI(lines []string) *c09UI { return &c09UI{lines: lines, recs: []*c09LineRec{{}}} }
-func (u *c09UI) cur() *c09LineRec      { return u.recs[len(u.recs)-1] }
+func (u *c09UI) cur() *c09LineRec    { return u.recs[len(u.recs)-1] }
 func (u *c09UI) ReadLine(prompt string) (string, error) {
 	u.mu.Lock()
 	defer u.mu.Unlock()
@@ -158,8 +160,8 @@ func (u *c09UI) PrintErr(a ...interface{}) {
 	defer u.mu.Unlock()
 	u.cur().Errs = append(u.cur().Errs, fmt.Sprint(a...))
 }
-func (u *c09UI) IsTerminal() bool                   { return false }
-func (u *c09UI) WantBrowser() bool                  { return false }
+func (u *c09UI) IsTerminal() bool                      { return false }
+func (u *c09UI) WantBrowser() bool                     { return false }
 func (u *c09UI) SetAutoComplete(c func(string) string) { u.complete = c }
 func (u *c09UI) allErrs() string {
 	u.mu.Lock()
@@ -306,7 +308,18 @@ func c09Serve(h http.Handler, path, rawQuery string) (status int, body string, p
 	return rec.Code, rec.Body.String(), panicked, false
 }
 
-const c09InprocTimeout = 15 * time.Second
+// c09InprocTimeout: watchdog for in-process calls (they take milliseconds); longer when the machine
+// is overloaded, so that starvation is not mistaken for a hang.
+var c09InprocTimeout = func() time.Duration {
+	if b, err := os.ReadFile("/proc/loadavg"); err == nil {
+		if f := strings.Fields(string(b)); len(f) > 0 {
+			if l, err := strconv.ParseFloat(f[0], 64); err == nil && l > 1.5*float64(runtime.NumCPU()) {
+				return 60 * time.Second
+			}
+		}
+	}
+	return 15 * time.Second
+}()
 
 // c09ServeSite is c09Serve plus, for a hang, the place where the handler's goroutine is stuck.
 func c09ServeSite(h http.Handler, path, rawQuery string) (status int, body string, panicked string, hang bool, site string) {
